@@ -99,3 +99,66 @@ func TestC28_WalletSpends(t *testing.T) {
 		}
 	})
 }
+
+// TestC28_SignRequests: POST /api/v2/wallet/transaction/sign for every wallet with every encoded transaction the node
+// offers - confirmed, pooled, spendable, unsigned, and transactions over real outputs whose signature array is shorter
+// or longer than their inputs or empty - with and without index lists.  The wallet id and the password fit, so that the
+// request gets as far as the wallet; what is wrong (if anything) is the transaction.
+func TestC28_SignRequests(t *testing.T) {
+	r := ev.Get("C28")
+	tm, err := getTemplate()
+	if err != nil {
+		setupFailed(t, "node template: %v", err)
+	}
+	n, err := startNode(tm)
+	if err != nil {
+		setupFailed(t, "node start: %v", err)
+	}
+	defer n.stop()
+	hx.Check(t, "C28", 120, 6000, func(t *rapid.T) {
+		c := &c28Ctx{t: t, n: n, tm: tm}
+		c.collectLive()
+		wid := rapid.SampledFrom([]string{"det.wlt", "bip.wlt", "enc.wlt", "col.wlt", "xpub.wlt"}).Draw(t, "wallet")
+		raws := append([]string{tm.spendableHex, tm.spentTxnHex, tm.unsignedHex}, c.rawtxs...)
+		raw := raws[rapid.IntRange(0, len(raws)-1).Draw(t, "rawtx")]
+		body := map[string]interface{}{"wallet_id": wid, "encoded_transaction": raw}
+		if wid == "enc.wlt" {
+			body["password"] = c28Password
+		}
+		switch rapid.IntRange(0, 3).Draw(t, "indexes") {
+		case 1:
+			body["sign_indexes"] = []int{0}
+		case 2:
+			body["sign_indexes"] = []int{}
+		case 3:
+			body["sign_indexes"] = []int{1, 0}
+		}
+		rb, _ := json.Marshal(body)
+		req := httptest.NewRequest("POST", "http://127.0.0.1:6420/api/v2/wallet/transaction/sign", bytes.NewReader(rb))
+		req.Header.Set("Content-Type", "application/json")
+		s := n.serve(req, 0)
+		if s.hung {
+			t.Fatalf("the request did not return: %s", trim(string(rb), 600))
+		}
+		if s.pan != nil {
+			t.Fatalf("handler panicked: %v\n request: POST /api/v2/wallet/transaction/sign %s", s.pan, trim(string(rb), 900))
+		}
+		if s.code < 200 || s.code > 599 || !json.Valid(s.body) {
+			t.Fatalf("status %d body %q\n request: %s", s.code, trim(string(s.body), 200), trim(string(rb), 600))
+		}
+		h := n.serve(httptest.NewRequest("GET", "http://127.0.0.1:6420/api/v1/health", nil), 0)
+		if h.hung || h.pan != nil || h.code != 200 {
+			t.Fatalf("after the request the node no longer answers /api/v1/health\n request: %s", trim(string(rb), 600))
+		}
+		nt := s.code != 200
+		r.CaseS(nt, "signreq/"+wid+"/"+raw[:minLen(len(raw), 80)]+fmt.Sprint(body["sign_indexes"]))
+		r.Count(fmt.Sprintf("sign_request_%d", s.code))
+	})
+}
+
+func minLen(a, b int) int {
+	if a < b {
+		return a
+	}
+	return b
+}
